@@ -43,5 +43,20 @@ class C04(TxnAreaCheck):
         "patterns used by the harness cannot conflict, so the reference map keyed by (method, pattern) is the exact oracle",
     ]
 
+    def extra(self, tier, seed, work, coverage):
+        """A fatal runtime error of the harness (e.g. 'sync: unlock of unlocked mutex') kills the process:
+        the history it was executing is the failing input."""
+        cur = os.path.join(work, "c04_current_history.txt")
+        try:
+            log = open(os.path.join(work, "harness.log"), errors="replace").read()
+        except OSError:
+            return []
+        if os.path.exists(cur) and ("fatal error:" in log or "panic:" in log):
+            first = [l for l in log.splitlines() if l.startswith(("fatal error:", "panic:"))][:1]
+            h = open(cur).read()
+            os.remove(cur)
+            return [("the router crashed (%s) while executing the history: %s" % ("; ".join(first), h[:6000]), h)]
+        return []
+
 
 CHECK = C04()
